@@ -40,6 +40,8 @@ pub struct Hostile {
     pub ix_ids: Vec<u16>,
     /// bound on (zero-length fields x records) so that C01 workloads stay fast; C15 lifts it
     pub amp_budget: usize,
+    /// tiny inputs for the interpreter (Miri) shards
+    pub small: bool,
 }
 
 fn hostile_width(rng: &mut Rng) -> u16 {
@@ -71,7 +73,7 @@ fn hostile_id(rng: &mut Rng, known: &[u16]) -> u16 {
 
 impl Hostile {
     pub fn new() -> Hostile {
-        Hostile { v9_ids: vec![], ix_ids: vec![], amp_budget: 20_000 }
+        Hostile { v9_ids: vec![], ix_ids: vec![], amp_budget: 20_000, small: false }
     }
 
     fn v9_template_body(&mut self, rng: &mut Rng, pools: &Pools) -> Vec<u8> {
@@ -81,7 +83,7 @@ impl Hostile {
             let id = if rng.chance(4, 5) { rng.range(256, 260) as u16 } else { hostile_id(rng, &self.v9_ids) };
             let nf = match rng.below(12) {
                 0 => 0,
-                1 => rng.range(50, 300) as usize,
+                1 if !self.small => rng.range(50, 300) as usize,
                 _ => rng.range(1, 8) as usize,
             };
             p16(&mut o, id);
@@ -140,7 +142,7 @@ impl Hostile {
                 let id = hostile_id(rng, &self.v9_ids);
                 let n = match rng.below(10) {
                     0 => 0,
-                    1 => rng.range(200, 2000) as usize,
+                    1 if !self.small => rng.range(200, 2000) as usize,
                     _ => rng.range(1, 64) as usize,
                 };
                 (id, rng.bytes(n))
@@ -186,7 +188,7 @@ impl Hostile {
                 let id = if rng.chance(4, 5) { rng.range(256, 260) as u16 } else { hostile_id(rng, &self.ix_ids) };
                 let nf = match rng.below(12) {
                     0 => 0,
-                    1 => rng.range(50, 300) as usize,
+                    1 if !self.small => rng.range(50, 300) as usize,
                     _ => rng.range(1, 8) as usize,
                 };
                 p16(&mut o, id);
@@ -230,7 +232,7 @@ impl Hostile {
                 let id = hostile_id(rng, &self.ix_ids);
                 let n = match rng.below(10) {
                     0 => 0,
-                    1 => rng.range(200, 2000) as usize,
+                    1 if !self.small => rng.range(200, 2000) as usize,
                     _ => rng.range(1, 64) as usize,
                 };
                 let mut b = rng.bytes(n);
@@ -258,7 +260,7 @@ impl Hostile {
         let rl = if version == 5 { 48 } else { 52 };
         let n = match rng.below(10) {
             0 => 0,
-            1 => rng.range(20, 60) as usize,
+            1 if !self.small => rng.range(20, 60) as usize,
             _ => rng.range(1, 4) as usize,
         };
         let mut o = vec![];
